@@ -316,3 +316,13 @@ def run(ctx):
                 if not emp:
                     probs.append("an empty footer is not rejected")
         ctx.add("R14.4", "C14/json-wrapper/" + ("RegisteredClaims" if "RegisteredClaims" in k else k.split(" as ")[0].lstrip("<")) + "/" + k.rsplit("::", 1)[1] + ("/footer" if "Footer" in k else "/payload"), not probs, "; ".join(sorted(set(probs))), site_of(f) if f else None)
+
+
+# ---- R14.7: serde_json is used as configured by default — no workspace manifest turns on a feature that changes how numbers or
+# nesting decode (shared manifest scan of C02)
+_run_c14 = run
+def run(ctx):
+    _run_c14(ctx)
+    import c02
+    c02.check_manifest_features(ctx, c02.DENY_JSON, "R14.7", "C14/manifest-features")
+FLOORS["R14.7"] = 1
